@@ -164,6 +164,9 @@ def handle : List String → String
   | ["sites"] => "ok " ++ Rustic.WriteSites.render
   | ["hist", seed] => if seed.toNat?.isSome then "ok" else "bad-op"
   | ["tamper", seed] => if seed.toNat?.isSome then "ok" else "bad-op"
+  -- packs extended at the front: every read fails or returns the original content (oracle in the harness; `Pack.fromFile`
+  -- refuses any file whose length is not the one its header describes: Props/C08 `from_file_rejects_front_extended`)
+  | ["tamper", "front", seed] => if seed.toNat?.isSome then "ok" else "bad-op"
   | ["swap", "snapshot", seed] => if seed.toNat?.isSome then "undetected" else "bad-op"
   -- exchanging two index / pack / key files: every read fails or returns what it returned before (oracle in the harness)
   | ["swap", "index", seed] => if seed.toNat?.isSome then "ok" else "bad-op"
